@@ -36,7 +36,7 @@ UINTS = ("uint8", "uint16", "uint32", "uint64")
 ALL_DTYPES = ("bool", "int8", "int16", "int32", "int64", "uint8", "uint16", "uint32", "uint64", "float16", "float32", "float64", "complex64", "object", "U3")
 ALLOWED = {"photon": FLOATS, "pixel": FLOATS, "signal": FLOATS, "phase": FLOATS, "image": UINTS}
 SHAPES = ("ok", "ok", "ok", "t", "row+1", "col-1", "1d", "3d", "0d", "bcast-row", "empty")
-FILLS = ("pos", "pos", "neg", "nan", "huge", "zero", "mixed")
+FILLS = ("pos", "pos", "neg", "nan", "huge", "zero", "mixed", "nan+neg")
 KINDS = ("ndarray", "ndarray", "ndarray", "list", "none", "scalar", "dataarray3", "dataarray3-bad")
 
 
@@ -45,7 +45,7 @@ def gen_value(rng, container):
     if good:
         dt = rng.choice(ALLOWED[container])
         kind = "dataarray3" if (container == "photon" and rng.random() < 0.3) else "ndarray"
-        return {"kind": kind, "shape": "ok", "dtype": dt, "fill": rng.choice(("pos", "pos", "zero", "mixed", "neg", "nan") if container != "image" else ("pos", "zero", "huge")), "salt": rng.randint(0, 9)}
+        return {"kind": kind, "shape": "ok", "dtype": dt, "fill": rng.choice(("pos", "pos", "zero", "mixed", "neg", "nan", "nan+neg") if container != "image" else ("pos", "zero", "huge")), "salt": rng.randint(0, 9)}
     return {"kind": rng.choice(KINDS), "shape": rng.choice(SHAPES), "dtype": rng.choice(ALL_DTYPES), "fill": rng.choice(FILLS), "salt": rng.randint(0, 9)}
 
 
@@ -118,6 +118,9 @@ def materialise(v, rows, cols):
         base = base * 0.0
     elif fill == "mixed":
         base[::2] *= -1.0
+    elif fill == "nan+neg":
+        base[1::2] *= -1.0
+        base[::3] = np.nan
     dt = v["dtype"]
     with warnings.catch_warnings():
         warnings.simplefilter("ignore")
@@ -186,6 +189,15 @@ def same(a, b):
     if a.dtype.kind in "OU":
         return bool(np.all(a == b))
     return bool(np.array_equal(a, b, equal_nan=True))
+
+
+def _has_nan(a):
+    if a is None:
+        return False
+    try:
+        return bool(np.isnan(np.asarray(a, dtype=float)).any())
+    except (TypeError, ValueError):
+        return False
 
 
 def check_invariant(cname, cont, rows, cols):
@@ -258,7 +270,8 @@ def execute(scn):
                 bad("C13.eq-total", f"C13.eq-raises@{feat}", {"op": k, "result": [repr(r)[:120] for r in res]})
             elif res[0] != res[1]:
                 bad("C13.eq-symmetric", f"C13.eq-symmetric@{feat}", {"op": k, "x==y": res[0], "y==x": res[1]})
-            elif res[0] != exp:
+            elif res[0] != exp and not _has_nan(mx) and not _has_nan(my):
+                # (NaN == NaN is left open by the statement: only totality and symmetry are demanded then)
                 bad("C13.eq-value", f"C13.eq-value@{feat}", {"op": k, "got": res[0], "expected": exp})
             if rejected_seen:
                 nontrivial = True
@@ -345,7 +358,7 @@ def execute(scn):
                 if raised is not None:
                     bad("C13.valid-accepted", f"C13.valid-rejected@{c}+{kind}", {"op": k, "exc": repr(raised)[:200], "value": op["value"]})
                 else:
-                    newm = newm.copy()  # the container may keep the caller's array: never alias the model
+                    newm = None if newm is None else newm.copy()  # the container may keep the caller's array: never alias the model
                     model[(d, c)] = newm
                     cur = content(cont)
                     if not same(cur, newm):
